@@ -112,6 +112,7 @@ def run(ctx):
     reads = mr.field_reads(f, m, {1}, acc)
     fblocks = ok_false_blocks(m)
     ctx.floor("M-MISMATCH", "Ok(false) return sites in matches", len(fblocks), 1)
+    rule_root_namespace(ctx, f, m)
     cdeps = {b: sf.control_deps(m, b) for b in fblocks}
     msg_t = sf.Taint(m, {2})
 
@@ -273,6 +274,52 @@ def run(ctx):
                "prefix test on the bare value of %s decides alone (no test of the remainder / next character on its success edge): "
                "a value that merely starts with the same text is accepted, e.g. `/foobar` for `/foo`, `org.foobar` for `org.foo`" % "+".join(owners),
                c.where)
+
+
+def rule_root_namespace(ctx, f, m):
+    """M-ROOT (added after seeded change C21): `path_namespace='/'` matches every path, but after stripping the prefix
+    `/` the remainder of `/a/b` is `a/b`, which neither is empty nor starts with `/`. Whatever form the boundary test
+    takes, the decision must therefore also look at the namespace value itself: a comparison with "/" (or a test that
+    it ends with '/', or has length 1)."""
+    seeds = set()
+    for bi, i, pl, rv, ln in mir.assignments(m):
+        for op in mir.rvalue_operands(rv):
+            p_ = mir.op_place(op)
+            if p_ and any(isinstance(x, list) and x[0] == "as" and x[1] == "PathNamespace" for x in p_[1]):
+                seeds.add(pl[0])
+    if not seeds:
+        ctx.ob("M-ROOT", "namespace-payload", False, "the PathNamespace payload is never read in matches", m.where)
+        return
+    t = sf.Taint(m, seeds)
+    found = None
+    for c in mir.calls(m):
+        name = c.callee.rsplit("::", 1)[-1]
+        if name not in ("eq", "ne", "ends_with", "len", "is_empty", "trim_end_matches", "strip_suffix", "trim_matches"):
+            continue
+        touched = [a for a in c.args if t.touches(a)]
+        if not touched:
+            continue
+        consts = []
+        for a in c.args:
+            o = mir.origin(m, a)
+            if o[0] == "const":
+                consts.append(o[1].get("v", o[1].get("pv")))
+        if name in ("eq", "ne") and "/" in consts:
+            found = c
+        elif name in ("ends_with", "trim_end_matches", "strip_suffix", "trim_matches") and ("/" in consts):
+            found = c
+        elif name == "len":
+            # len() == 1
+            for sb, op, l, r, tt, ft, ln in mir.cmp_switches(m):
+                for x, y in ((l, r), (r, l)):
+                    ox = mir.origin(m, x)
+                    k = mir.resolve_const(m, y)
+                    if ox[0] == "call" and ox[1] is c and k is not None and k.get("v") == 1:
+                        found = c
+    ctx.ob("M-ROOT", "path_namespace-root-is-tested", found is not None,
+           "the namespace value itself is tested for being the root (%s)" % found.callee.rsplit("::", 1)[-1] if found else
+           "nothing tests whether the namespace is `/`: with the remainder-based boundary test `path_namespace='/'` matches only the root "
+           "path itself instead of every path", found.where if found else m.where)
 
 
 def _view_root(body, op):
